@@ -98,7 +98,7 @@ PROFILES = {
         [sim(50, 22, MaxSeq=14, MaxTables=5, MaxHist=20, MaxSealed=2, Ops=CORE1, WriteBias=3),
          edges(20, 2000, Ops=CORE1, MaxSeq=5, MinLen=8),
          drv(24, 160, DRIVE_W), deep(2)],
-        c(Ops=CORE_OPS, MaxSeq=6),
+        c(Ops=CORE1, MaxSeq=6),
         [sim(150, 30, Keys={1, 2, 3}, MaxSeq=24, MaxTables=6, MaxHist=30, Ops=CORE_OPS, WriteBias=4),
          edges(6, 80000, timeout=2400, Ops=CORE1, MaxSeq=6, MinLen=9),
          drv(120, 300, DRIVE_W), deep(12)]),
@@ -134,7 +134,7 @@ PROFILES = {
         [sim(50, 24, MaxSeq=16, MaxTables=5, MaxHist=20, Ops=CORE1 | {"ingest"}, WriteBias=3),
          edges(20, 2000, Ops=CORE1, MaxSeq=5, MinLen=8),
          drv(24, 160, dict(DRIVE_W, reopen=2))],
-        c(Ops=CORE_OPS | {"ingest"}, MaxSeq=6),
+        c(Ops=CORE1 | {"ingest"}, MaxSeq=5, MaxTables=4),
         [sim(150, 30, Keys={1, 2, 3}, MaxSeq=24, MaxTables=6, MaxHist=30, Ops=CORE_OPS | {"ingest"}, WriteBias=4),
          edges(6, 80000, timeout=2400, Ops=CORE1, MaxSeq=6, MinLen=9),
          drv(120, 300, dict(DRIVE_W, reopen=2))],
@@ -146,7 +146,7 @@ PROFILES = {
         [sim(50, 22, MaxSeq=14, MaxTables=5, MaxHist=20, Ops=CORE1 | {"ingest"}, WriteBias=3),
          edges(20, 2000, Ops=CORE1, MaxSeq=5, MinLen=8),
          drv(24, 160, dict(DRIVE_W, ingest=0.5))],
-        c(Ops=CORE_OPS, MaxSeq=6),
+        c(Ops=CORE1, MaxSeq=6),
         [sim(150, 30, Keys={1, 2, 3}, MaxSeq=24, MaxTables=6, MaxHist=30, Ops=CORE_OPS | {"ingest"}, WriteBias=4),
          edges(6, 80000, timeout=2400, Ops=CORE1, MaxSeq=6, MinLen=9),
          drv(120, 300, dict(DRIVE_W, ingest=0.5))]),
@@ -261,7 +261,7 @@ PROFILES = {
         c(Ops=CORE1, MaxSeq=5),
         [sim(50, 22, MaxSeq=14, MaxTables=5, MaxHist=20, Ops=CORE1 | {"ingest", "clear", "pair"}, WriteBias=3),
          drv(24, 160, dict(DRIVE_W, ingest=0.7, clear=0.2, droprange=0.5))],
-        c(Ops=CORE_OPS | {"ingest"}, MaxSeq=6),
+        c(Ops=CORE1 | {"ingest"}, MaxSeq=5, MaxTables=4),
         [sim(150, 30, Keys={1, 2, 3}, MaxSeq=24, MaxTables=6, MaxHist=30,
              Ops=CORE_OPS | {"ingest", "clear", "pair"}, WriteBias=4),
          drv(120, 300, dict(DRIVE_W, ingest=0.7, clear=0.2, droprange=0.5))]),
